@@ -622,7 +622,11 @@ int SQLITE3::Handle::bind(bloc::Tuple& args)
         sqlite3_bind_text(_stmt, i, v.literal()->c_str(), v.literal()->size(), SQLITE_STATIC);
         break;
       case Type::TABCHAR:
-        sqlite3_bind_blob(_stmt, i, v.tabchar()->data(), v.tabchar()->size(), SQLITE_STATIC);
+        /* an empty bytes array has no data pointer, which would bind NULL */
+        if (v.tabchar()->empty())
+          sqlite3_bind_zeroblob(_stmt, i, 0);
+        else
+          sqlite3_bind_blob(_stmt, i, v.tabchar()->data(), v.tabchar()->size(), SQLITE_STATIC);
         break;
       default:
         break;
